@@ -1,6 +1,7 @@
 package main
 
 import (
+	"reflect"
 	"os"
 	"bufio"
 	"crypto/ecdsa"
@@ -205,6 +206,32 @@ func (w *World) state() {
 	if len(off) > 0 {
 		sort.Strings(off)
 		w.emit("X gaugekeys %s", strings.Join(off, ";"))
+	}
+	// every member of a session works on the session's module states: a connection whose module holds a state of its
+	// own (two participants initialising the module of one session at the same time) lives in a session of its own
+	for _, c := range w.order {
+		cs := w.conns[c]
+		if cs == nil || !cs.alive {
+			continue
+		}
+		cur := cs.rh.VerifCurrentSession()
+		if cur == nil {
+			continue
+		}
+		for _, m := range cs.rh.Modules {
+			f := reflect.ValueOf(m)
+			if f.Kind() != reflect.Pointer || f.Elem().Kind() != reflect.Struct {
+				continue
+			}
+			f = f.Elem().FieldByName("state")
+			if !f.IsValid() || f.Kind() != reflect.Pointer || f.IsNil() {
+				continue
+			}
+			st, ok := cur.ModuleState(m.Name())
+			if !ok || reflect.ValueOf(st).Kind() != reflect.Pointer || reflect.ValueOf(st).Pointer() != f.Pointer() {
+				w.emit("X splitstate %d %s", c, m.Name())
+			}
+		}
 	}
 	w.emit("S [%d %s g=%d", len(nums), strings.Join(strs, " "), int(sessionGauge()-w.gaugeBase))
 	w.ghost(ids)
